@@ -158,29 +158,59 @@ def run(ck):
         ck.need(R2, einit is not None and ecall is not None, "Edge.__init__/__call__ not found")
         dparam = ecall.node.args.args[1].arg
         n_edge = 0
+        from sa.minieval import MiniEval
+        REPS = {'falsy': (0, False, None, ''), 'truthy': (1, True, 5, 'on', [1])}
         for rise, fall, u_rise, u_fall in itertools.product((False, True), (False, True),
                                                             (None, False, True), (False, True)):
             env = {'rise': rise, 'fall': fall, 'u_rise': u_rise, 'u_fall': u_fall,
                    'block.UNDEF': UNDEF, 'UNDEF': UNDEF}
-            it = Interp(R2, env, 'truthiness')
-            it.run(einit.node.body)
-            attrs = {k: v for k, v in it.env.items() if k.startswith('self.')}
+            concrete = True
+            try:
+                # concrete interpretation with several representatives per truthiness class (a filter may
+                # depend on the truth of previous / value only, not on their type or hashability)
+                me = MiniEval(R2, dict(env, self='SELF'))
+                o_ = me.run(einit.node.body)
+                ck.need(R2, o_[0] == 'return', f"Edge.__init__ does not complete on flags {env}: {o_}")
+                attrs = {k: v for k, v in me.env.items() if k.startswith('self.')}
+            except AnalysisError:
+                concrete = False
+                it = Interp(R2, env, 'truthiness')
+                it.run(einit.node.body)
+                attrs = {k: v for k, v in it.env.items() if k.startswith('self.')}
             for prev, value in itertools.product((UNDEF, 0, 1), (0, 1)):
-                env2 = dict(attrs)
-                env2.update({f"{dparam}['value']": value, f"{dparam}['previous']": prev,
-                             'block.UNDEF': UNDEF, 'UNDEF': UNDEF, dparam: data_tok})
-                got = Interp(R2, env2, 'truthiness').run(ecall.node.body)
-                ck.abstract_cases += 1
-                n_edge += 1
                 if prev is UNDEF:
                     want = (rise if u_rise is None else u_rise) if value else u_fall
                 else:
                     want = (rise and not prev and bool(value)) or (fall and bool(prev) and not value)
                 pv = 'UNDEF' if prev is UNDEF else ('truthy' if prev else 'falsy')
+                msg = None
+                if concrete:
+                    prevs = (UNDEF,) if prev is UNDEF else REPS['truthy' if prev else 'falsy']
+                    vals = tuple(v for v in REPS['truthy' if value else 'falsy'] if not isinstance(v, list))
+                    try:
+                        for p_ in prevs:
+                            for v_ in vals:
+                                env2 = dict(attrs)
+                                env2.update({'block.UNDEF': UNDEF, 'UNDEF': UNDEF, 'self': 'SELF',
+                                             dparam: {'value': v_, 'previous': p_, 'source': 's', 'trigger': 'output'}})
+                                got_ = MiniEval(R2, env2).run(ecall.node.body)
+                                ck.abstract_cases += 1
+                                if (got_[0] != 'return' or bool(got_[1]) != bool(want)) and msg is None:
+                                    msg = f"previous={p_!r}, value={v_!r}: code gives {got_}"
+                        got = want if msg is None else (not want)
+                    except AnalysisError:
+                        concrete = False
+                if not concrete:
+                    env2 = dict(attrs)
+                    env2.update({f"{dparam}['value']": value, f"{dparam}['previous']": prev,
+                                 'block.UNDEF': UNDEF, 'UNDEF': UNDEF, dparam: data_tok})
+                    got = Interp(R2, env2, 'truthiness').run(ecall.node.body)
+                    ck.abstract_cases += 1
+                n_edge += 1
                 ck.ob(R2, f"{FIL}:Edge rise={rise} fall={fall} u_rise={u_rise} u_fall={u_fall} :: "
                       f"{pv}->{'truthy' if value else 'falsy'}", bool(got) == bool(want),
-                      f"documented: {'pass' if want else 'drop'}; code: {'pass' if got else 'drop'}",
-                      ecall, ecall.node)
+                      f"documented: {'pass' if want else 'drop'}; code: {'pass' if got else 'drop'}" +
+                      (f" ({msg})" if msg else ''), ecall, ecall.node)
         # not_from_undef
         nfu = prog.func(f"{FIL}:not_from_undef")
         dp = nfu.node.args.args[0].arg
